@@ -117,7 +117,20 @@ fn main() {
     let empty = work.join("empty.dmp"); std::fs::write(&empty, b"").unwrap();
     let missing = work.join("does-not-exist.dmp");
     let directory = work.join("adir"); std::fs::create_dir_all(&directory).unwrap();
-    let symdir = PathBuf::from("/repo/testdata/symbols");
+    // the repository's symbol tree, with parameter lists added to bare function names so that --recover-function-args has something to recover
+    let symdir = work.join("symbols");
+    {
+        let src = PathBuf::from("/repo/testdata/symbols/test_app.pdb/5A9832E5287241C1838ED98914E9B7FF1/test_app.sym");
+        let dst = symdir.join("test_app.pdb/5A9832E5287241C1838ED98914E9B7FF1");
+        std::fs::create_dir_all(&dst).unwrap();
+        let text = String::from_utf8_lossy(&std::fs::read(&src).unwrap()).into_owned();
+        let mut out = String::new();
+        for line in text.lines() {
+            if line.starts_with("FUNC ") && !line.contains('(') && line.split(' ').count() == 5 { out.push_str(line); out.push_str("(int, char**)\n"); }
+            else { out.push_str(line); out.push('\n'); }
+        }
+        std::fs::write(dst.join("test_app.sym"), out).unwrap();
+    }
     let emptysyms = work.join("nosyms"); std::fs::create_dir_all(&emptysyms).unwrap();
 
     let mut cases: Vec<Value> = vec![];
